@@ -160,6 +160,28 @@ def specs(tier, rng, explicit=False):
     return out
 
 
+def cyk_name_specs():
+    """CYK binarises long alternatives with generated helper names: alternatives whose symbol names run together to the
+    same string (t k_n v / t k n_v) must still be told apart"""
+    T, R = E.tok, E.ref
+    A, B = T('A'), T('B')
+
+    def rule(name, alts):
+        return {'name': name, 'expand1': False, 'keepall': False, 'alts': [{'alias': al, 'body': b} for al, b in alts]}
+    out = []
+    for (x1, x2), (y1, y2) in ((('k_n', 'v'), ('k', 'n_v')), (('k_n_v', 'w'), ('k_n', 'v_w')), (('k', 'n_v'), ('k_n', 'v'))):
+        names = {x1: [B], x2: [A], y1: [B, B], y2: [A, A]}
+        for extra in ([], [R('t')]):
+            rules = [rule('start', [('flat', E.seq([R('t'), R(x1), R(x2)] + extra)), ('nested', E.seq([R('t'), R(y1), R(y2)] + extra))]), rule('t', [('', A)])]
+            for n, body in names.items():
+                rules.append(rule(n, [('', E.seq(list(body)))]))
+            G = {'rules': rules}
+            ins = [('A', 'B', 'A'), ('A', 'B', 'B', 'A', 'A'), ('A', 'B', 'A', 'A'), ('A', 'B', 'B', 'A'), ('A', 'B', 'A', 'A', 'A'), ('A', 'B', 'B', 'A', 'A', 'A')]
+            for ka in (False, True):
+                out.append({'G': G, 'ka': ka, 'ph': True, 'inputs': ins, 'cyk': True, 'explicit': False, 'family': 'F_cyk_names'})
+    return out
+
+
 def batch_of(cases):
     return {'cases': [{'G': c['G'], 'cyclic': c['cyclic'], 'multitok': bool(c.get('multitok')), 'inputs': [{'w': i['w'], 'toks': i.get('toks', []), 'vmap': i.get('vmap', []), 'obs': [{k: o[k] for k in ('cfg', 'out', 'tree', 'must')} for o in i['obs']],
                                                                       'exp': [{k: o[k] for k in ('cfg', 'out', 'tree', 'collrun', 'collok', 'coll', 'one', 'isamb') if k in o} for o in i['exp']]} for i in c['inputs']]} for c in cases]}
@@ -232,6 +254,7 @@ def run(pid, tier, seed, replay):
             raise C.MachineryFailure('MC_EBNF: %s violated - the specification itself is wrong' % res.violated)
         sps = specs(tier, rng, explicit=(pid == 'C04'))
         if pid == 'C03':
+            sps += cyk_name_specs()
             from . import mtok
             sps += mtok.specs(C.scale(400 if tier == 'quick' else 4000), rng)
         cases = C.pmap(observe_case, sps)
